@@ -1,7 +1,258 @@
-"""stub"""
-REQUIRED = []
-WITNESSES = []
-def regenerate(ctx, h):
-    return {"broken": [], "count": 0}
-def model_correspondence(*a):
-    pass
+"""C02: regenerate lean/WaVerif/Gen/C02Templates.lean from the REAL wat2x64 (harness c02, op `tmpl`).
+
+For every modelled WebAssembly integer instruction a tiny module
+    (func $f (param ..) (result ..) local.get 0 [local.get 1 [local.get 2]] <ins>)
+is translated by wat2x64.Wat2X64; the assembly text between the comment marker `# <ins>` and the next
+blank line is that instruction's template.  Each Intel-syntax line is parsed into a term of
+WaVerif.X64.Ins; the frame slots of the operand-stack positions are read off the preceding
+`local.get` templates.  A line outside the modelled syntax makes the row "unmodelled" (its theorem
+then cannot be stated, which the check reports as a broken obligation)."""
+import os, re
+from lib import vlib
+
+INT_BIN = "add sub mul div_s div_u rem_s rem_u and or xor shl shr_s shr_u rotl rotr".split()
+INT_REL = "eq ne lt_s lt_u gt_s gt_u le_s le_u ge_s ge_u".split()
+INT_UN = "clz ctz popcnt".split()
+
+
+def rows():
+    """(row name, instruction, param types, result type, statement kind)"""
+    R = []
+    for t in ("i32", "i64"):
+        for k in INT_BIN:
+            R.append(("%s_%s" % (t, k), "%s.%s" % (t, k), [t, t], t, "bin"))
+        for k in INT_REL:
+            R.append(("%s_%s" % (t, k), "%s.%s" % (t, k), [t, t], "i32", "rel"))
+        R.append(("%s_eqz" % t, "%s.eqz" % t, [t], "i32", "eqz"))
+        for k in INT_UN:
+            R.append(("%s_%s" % (t, k), "%s.%s" % (t, k), [t], t, "un"))
+    R.append(("i32_wrap_i64", "i32.wrap_i64", ["i64"], "i32", "wrap"))
+    R.append(("i64_extend_i32_s", "i64.extend_i32_s", ["i32"], "i64", "exts"))
+    R.append(("i64_extend_i32_u", "i64.extend_i32_u", ["i32"], "i64", "extu"))
+    R.append(("select_i32", "select", ["i32", "i32", "i32"], "i32", "select"))
+    R.append(("select_i64", "select", ["i64", "i64", "i32"], "i64", "select"))
+    return R
+
+
+ROWS = rows()
+# rows whose template is not valid assembly on the pinned tree (GNU as: operand type mismatch): Lean proves them stuck
+ILLFORMED = ["i64_clz", "i64_ctz", "i64_popcnt"]
+# rows whose full statement is false: proved in weakened form + negation by witness (replayed on the real ELF)
+PARTIAL = ["i32_rem_s", "i64_rem_s"]
+WITNESSES = [("i32.rem_s", (0x80000000, 0xffffffff), "minint-by-minus1"),
+             ("i64.rem_s", (0x8000000000000000, 0xffffffffffffffff), "minint-by-minus1")]
+REQUIRED = ["%s_ok" % r[0] for r in ROWS if r[0] not in ILLFORMED and r[0] not in PARTIAL] + \
+           ["%s_partial" % r for r in PARTIAL] + ["%s_full_false" % r for r in PARTIAL] + \
+           ["%s_illformed" % r for r in ILLFORMED] + ["%s_full_false" % r for r in ILLFORMED]
+
+REG = {}
+for base, names in {"rax": ("rax", "eax", "al"), "rcx": ("rcx", "ecx", "cl"), "rdx": ("rdx", "edx", "dl"), "rbx": ("rbx", "ebx", "bl"),
+                    "rsi": ("rsi", "esi", "sil"), "rdi": ("rdi", "edi", "dil")}.items():
+    for n, w in zip(names, "qdb"):
+        REG[n] = (base, w)
+for i in range(8, 16):
+    for sfx, w in (("", "q"), ("d", "d"), ("b", "b")):
+        REG["r%d%s" % (i, sfx)] = ("r%d" % i, w)
+PTR = {"byte": "b", "dword": "d", "qword": "q"}
+ALU = {"add", "sub", "and", "or", "xor", "cmp", "test", "imul"}
+SH = {"shl", "shr", "sar", "rol", "ror"}
+CC = {"e", "ne", "l", "ge", "le", "g", "b", "ae", "be", "a"}
+
+
+def parse_operand(txt):
+    txt = txt.strip()
+    if txt in REG:
+        return ".reg .%s .%s" % REG[txt]
+    m = re.fullmatch(r"(byte|dword|qword) ptr \[rbp-(\d+)\]", txt)
+    if m and int(m.group(2)) % 8 == 0:
+        return ".slot %d .%s" % (int(m.group(2)) // 8, PTR[m.group(1)])
+    m = re.fullmatch(r"-?\d+|0x[0-9A-Fa-f]+", txt)
+    if m:
+        v = int(txt, 0)
+        return ".imm (%d)" % v
+    return None
+
+
+def parse_line(line):
+    """one assembly line (comment stripped) -> Lean term of X64.Ins, or None"""
+    line = line.split("#", 1)[0].strip()
+    if not line:
+        return ""
+    parts = line.split(None, 1)
+    mn = parts[0]
+    ops = [o for o in (parts[1].split(",") if len(parts) > 1 else [])]
+    po = [parse_operand(o) for o in ops]
+    if any(p is None for p in po):
+        return None
+    if mn in ("mov", "movabs") and len(po) == 2:
+        return ".mov (%s) (%s)" % tuple(po)
+    if mn == "movzx" and len(po) == 2:
+        return ".movzx (%s) (%s)" % tuple(po)
+    if mn in ("movsx", "movsxd") and len(po) == 2:
+        return ".movsx (%s) (%s)" % tuple(po)
+    if mn in ALU and len(po) == 2:
+        return ".alu .%s (%s) (%s)" % (mn, po[0], po[1])
+    if mn in SH and len(po) == 2 and po[1] == ".reg .rcx .b":
+        return ".sh .%s (%s)" % (mn, po[0])
+    if mn in ("cdq", "cqo") and not po:
+        return "." + mn
+    if mn in ("idiv", "div") and len(po) == 1:
+        return ".%s (%s)" % (mn, po[0])
+    if mn.startswith("set") and mn[3:] in CC and len(po) == 1:
+        return ".set .%s (%s)" % (mn[3:], po[0])
+    if mn == "cmovne" and len(po) == 2:
+        return ".cmovne (%s) (%s)" % tuple(po)
+    if mn in ("lzcnt", "tzcnt", "popcnt") and len(po) == 2:
+        return ".%s (%s) (%s)" % (mn, po[0], po[1])
+    if mn in ("push", "pop") and len(po) == 1 and po[0].endswith(" .q") and po[0].startswith(".reg "):
+        return ".%s .%s" % (mn, po[0].split()[1][1:])
+    return None
+
+
+def module_for(ins, ptypes, rt):
+    gets = " ".join("local.get %d" % i for i in range(len(ptypes)))
+    return "(module (func $f %s (result %s) %s %s))" % (" ".join("(param %s)" % t for t in ptypes), rt, gets, ins)
+
+
+def cut(asm, ins, nparams):
+    """template lines for `ins` and the slots written by the preceding local.get templates"""
+    lines = asm.splitlines()
+    try:
+        start = next(i for i, l in enumerate(lines) if l.strip() == ".Wa.F.f:")
+    except StopIteration:
+        return None, None, "function label not found"
+    body = lines[start:]
+    slots = []
+    for k in range(nparams):
+        idx = next((i for i, l in enumerate(body) if l.strip().startswith("# local.get %d " % k)), None)
+        if idx is None:
+            return None, None, "local.get %d marker not found" % k
+        m = re.search(r"mov\w*\s+[dq]word ptr \[rbp-(\d+)\],", body[idx + 2])
+        if not m or int(m.group(1)) % 8:
+            return None, None, "local.get %d template has an unexpected shape: %r" % (k, body[idx + 2])
+        slots.append(int(m.group(1)) // 8)
+    marker = "# " + ins
+    idx = next((i for i, l in enumerate(body) if l.strip() == marker), None)
+    if idx is None:
+        return None, None, "marker %r not found" % marker
+    tl = []
+    for l in body[idx + 1:]:
+        if not l.strip() or l.strip().endswith(":"):
+            break
+        tl.append(l)
+    return tl, slots, None
+
+
+def regenerate(ctx, harness):
+    """runs the real wat2x64 on every row module, writes Gen/C02Templates.lean; returns info dict"""
+    reqs = "\n".join("%s\t%s" % (r[0], module_for(r[1], r[2], r[3])) for r in ROWS) + "\n"
+    rc, out, err = ctx.run_bin(harness, args=["tmpl"], input_text=reqs, timeout=300)
+    got = {}
+    for l in out.splitlines():
+        name, _, payload = l.partition("\t")
+        got[name] = payload
+    broken = []
+    entries = []
+    info = {"rows": {}}
+    for name, ins, ptypes, rt, kind in ROWS:
+        payload = got.get(name, "ERR no output")
+        if payload.startswith("ERR"):
+            broken.append({"theorem": name, "why": "wat2x64 rejects the row module: %s" % payload[:200]})
+            continue
+        asm = bytes.fromhex(payload).decode("utf-8", "replace")
+        tl, slots, e = cut(asm, ins, len(ptypes))
+        if e:
+            broken.append({"theorem": name, "why": "template extraction: " + e})
+            continue
+        terms = [parse_line(l) for l in tl]
+        if any(t is None for t in terms):
+            bad = [l.strip() for l, t in zip(tl, terms) if t is None]
+            broken.append({"theorem": name, "why": "template line outside the modelled x86-64 subset: %s" % bad[:3]})
+            entries.append((name, ins, tl, None, slots))
+            continue
+        terms = [t for t in terms if t]
+        entries.append((name, ins, tl, terms, slots))
+        info["rows"][name] = {"ins": ins, "asm": [l.strip() for l in tl], "slots": slots, "ptypes": ptypes, "rt": rt, "kind": kind}
+    path = os.path.join(vlib.LEAN, "WaVerif", "Gen", "C02Templates.lean")
+    L = ["import WaVerif.Model.C02X64",
+         "/-! REGENERATED on every run by extract/c02_templates.py from wat2x64.Wat2X64 of /repo's working tree",
+         "    (the assembly text emitted for one WebAssembly instruction, parsed line by line). Do not edit. -/",
+         "namespace WaVerif.Gen.C02", "open WaVerif.X64", ""]
+    names = []
+    for name, ins, tl, terms, slots in entries:
+        L.append("/- %s:" % ins)
+        for l in tl:
+            L.append("     " + l.strip().replace("-/", "- /"))
+        L.append("-/")
+        if terms is None:
+            L.append("-- %s: outside the modelled subset" % name)
+            continue
+        x = slots[0]
+        y = slots[1] if len(slots) > 1 else 0
+        L.append("def %s : Template := { code := [%s], x := %d, y := %d }" % (name, ",\n    ".join(terms), x, y))
+        if len(slots) > 2:
+            L.append("def %s_c : Nat := %d" % (name, slots[2]))
+        names.append(name)
+    L.append("")
+    L.append("def table : List (String × Template) := [%s]" % ", ".join('("%s", %s)' % (n, n) for n in names))
+    L.append("def condSlots : List (String × Nat) := [%s]" % ", ".join('("%s", %s_c)' % (n, n) for n in names if n.startswith("select")))
+    L.append("end WaVerif.Gen.C02")
+    if os.path.exists(path):
+        os.remove(path)
+    with open(path, "w") as f:
+        f.write("\n".join(L) + "\n")
+    info["broken"] = broken
+    info["count"] = len(names)
+    info["names"] = names
+    return info
+
+
+def model_correspondence(ctx, B, model, tinfo, dist, quick):
+    """The Lean x86-64 model running the regenerated templates vs the real CPU running the real executable:
+    for every modelled row, a grid module in *inline* form (the template works on operand-stack slots exactly as extracted)."""
+    from extract import c02_mods as M
+    import concurrent.futures as cf
+    rng = ctx.rng
+    work = []
+    for name, r in sorted(tinfo["rows"].items()):
+        if r["kind"] == "select" or name in ILLFORMED:
+            continue
+        ins = r["ins"]
+        ptypes, rt = M.NUMERIC[ins]
+        cases = [c for c in M.numeric_cases(ins, rng, 8 if quick else 16, 1 if quick else 4)]
+        work.append((name, ins, cases))
+    # the real executable: non-trapping cases in one module per row; trapping cases are known from the trap jobs (SIGFPE = #DE)
+    def one(w):
+        name, ins, cases = w
+        ptypes, rt = M.NUMERIC[ins]
+        okc = [c for c in cases if not M.traps(ins, ptypes, c) and M.case_class(ins, ptypes, c) != "minint-by-minus1"]
+        b = B.build("corr_" + name, M.inline_numeric_module(ins, okc))
+        if b["stage"] != "ok":
+            return name, ins, okc, None
+        nat = B.run_native(b["exe"])
+        return name, ins, okc, nat["out"].splitlines()
+    with cf.ThreadPoolExecutor(16) as ex:
+        res = list(ex.map(one, work))
+    ops, expect = [], []
+    for name, ins, okc, nl in res:
+        if nl is None or len(nl) != len(okc):
+            continue
+        ptypes, rt = M.NUMERIC[ins]
+        bits = 32 if rt == "i32" else 64
+        for c, line in zip(okc, nl):
+            ops.append("row %s %d %d" % (name, c[0], c[1] if len(c) > 1 else 0))
+            expect.append("ok %d" % (int(line) % (1 << bits)))
+    # #DE cases: the model must fault exactly where the hardware raises SIGFPE
+    for name, ins, cases in work:
+        ptypes, rt = M.NUMERIC[ins]
+        for c in cases:
+            cls = M.case_class(ins, ptypes, c)
+            if cls in ("divisor-zero", "minint-by-minus1") and ins.split(".")[1] in ("div_s", "div_u", "rem_s", "rem_u"):
+                ops.append("row %s %d %d" % (name, c[0], c[1]))
+                expect.append("fault")
+    _, mo, _ = ctx.run_bin(model, input_text="\n".join(ops) + "\n")
+    diffs = ctx.diff_lines(ops, expect, mo.splitlines())
+    dist["model_vs_cpu_lines"] = len(ops)
+    for i, op, a, b in diffs[:10]:
+        ctx.proof["broken"].append({"theorem": "correspondence: Lean x86-64 model on the regenerated template vs the real CPU",
+                                    "why": "%s: hardware gives %s, model gives %s" % (op, a, b)})
